@@ -165,7 +165,7 @@ def dynamic_obstacles(shape, num_obstacles, random_agent, rng):
 LAYOUT = ('tuple', ['small', 'small'])
 
 
-@contract(target=RS + 'rooms', args={'shape': 'Shape', 'layout': LAYOUT, 'rng': 'Rng'}, kwonly=['rng'], props=['C13'],
+@contract(target=RS + 'rooms', args={'shape': 'Shape', 'layout': LAYOUT, 'rng': 'Rng'}, kwonly=['rng'], props=['C02', 'C13'],
           bounded=True)
 def rooms(shape, layout, rng):
     requires(shape.height >= 1 and shape.width >= 1)   # quantifier of the property: shapes from 1x1 up
@@ -196,7 +196,7 @@ def memory_rooms(shape, layout, colors, num_beacons, num_exits, rng):
 
 
 @contract(target=RS + 'crossing', args={'shape': 'Shape', 'num_rivers': 'small', 'object_type': 'Class0', 'rng': 'Rng'},
-          kwonly=['rng'], props=['C13'], bounded=True)
+          kwonly=['rng'], props=['C02', 'C13'], bounded=True)
 def crossing(shape, num_rivers, object_type, rng):
     requires(shape.height >= 1 and shape.width >= 1)
     ensures('only-valueerror', lambda: only_valueerror())
@@ -218,19 +218,19 @@ def rooms_contract(shape, rng):
 
 
 @contract(target=RS + 'rooms', args={'shape': 'Shape', 'layout': ('const', (1, 1)), 'rng': 'Rng'}, kwonly=['rng'],
-          props=['C13', 'C08'])
+          props=['C02', 'C13', 'C08'])
 def rooms_1x1(shape, layout, rng):
     rooms_contract(shape, rng)
 
 
 @contract(target=RS + 'rooms', args={'shape': 'Shape', 'layout': ('const', (2, 2)), 'rng': 'Rng'}, kwonly=['rng'],
-          props=['C13', 'C08'])
+          props=['C02', 'C13', 'C08'])
 def rooms_2x2(shape, layout, rng):
     rooms_contract(shape, rng)
 
 
 @contract(target=RS + 'rooms', args={'shape': 'Shape', 'layout': ('const', (1, 3)), 'rng': 'Rng'}, kwonly=['rng'],
-          props=['C13', 'C08'])
+          props=['C02', 'C13', 'C08'])
 def rooms_1x3(shape, layout, rng):
     rooms_contract(shape, rng)
 
